@@ -76,7 +76,7 @@ W_ASSUME = ["virtual clock hook (cfg rs_tftpd_verif) supplies time inside Worker
 REALTIME = {"srv", "conc", "cli", "bin"}
 
 PROPS = {
-    "C01": {"suites": ["wsend"], "monitor": True, "title": "download fidelity", "assumptions": W_ASSUME},
+    "C01": {"suites": ["wsend", "srv"], "monitor": True, "title": "download fidelity", "assumptions": W_ASSUME},
     "C02": {"suites": ["wrecv", "srv"], "monitor": True, "title": "upload fidelity", "assumptions": W_ASSUME},
     "C03": {"suites": ["srv", "bin"], "monitor": True, "title": "directory confinement",
             "assumptions": ["no symbolic links inside the served directories; Unix path branch", "loopback UDP delivers the sequential request histories"]},
@@ -86,8 +86,8 @@ PROPS = {
             "assumptions": ["OS resource exhaustion (threads, descriptors, memory growth) is outside the model", "loopback UDP"]},
     "C06": {"suites": ["srv"], "monitor": True, "title": "access policy", "assumptions": ["Path::exists as modelled by the POSIX tree walk; loopback UDP"]},
     "C07": {"suites": ["wsend", "wrecv"], "monitor": True, "title": "termination", "assumptions": W_ASSUME},
-    "C08": {"suites": ["wsend", "wrecv"], "monitor": True, "title": "window flow control", "assumptions": W_ASSUME},
-    "C09": {"suites": ["srv", "bin"], "monitor": True, "title": "option negotiation", "assumptions": ["loopback UDP; retransmission interval not measured in the quick tier"]},
+    "C08": {"suites": ["wsend", "wrecv", "wsend-long"], "monitor": True, "title": "window flow control", "assumptions": W_ASSUME},
+    "C09": {"suites": ["srv", "bin", "conc"], "monitor": True, "title": "option negotiation", "assumptions": ["loopback UDP; retransmission interval not measured in the quick tier"]},
     "C10": {"suites": ["codec-dec"], "monitor": True,
             "title": "decoder totality"},
     "C11": {"suites": ["codec-enc", "codec-dec"], "monitor": True,
